@@ -293,6 +293,7 @@ func fatScenarios(cfg fatCfg, oracle string, depth int, quick bool) []*fatScen {
 	}
 	lg = append(lg, W("f2long-name.bin", "0", "c"), W("f2long-name.bin", "past", "1"), W("f2long-name.bin", "mid", "c+1"),
 		fsOp{Kind: "append", Path: "F1.BIN", Len: "c+1"}, fsOp{Kind: "append", Path: "f2long-name.bin", Len: "1"},
+		fsOp{Kind: "rmw", Path: "F1.BIN", Off: "mid", Len: "7"}, fsOp{Kind: "rmw", Path: "f2long-name.bin", Off: "eof", Len: "c+1"},
 		fsOp{Kind: "trunc", Path: "F1.BIN"}, fsOp{Kind: "trunc", Path: "f2long-name.bin"},
 		fsOp{Kind: "remove", Path: "F1.BIN"}, fsOp{Kind: "readpartial", Path: "F1.BIN"}, fsOp{Kind: "readpartial", Path: "f2long-name.bin"}, fsOp{Kind: "reopen"})
 	// the free clusters are dirty: a junk file of 24 clusters was written and removed before the exploration starts, so
